@@ -25,6 +25,7 @@ type Profile struct {
 	Hybrid, Implicit                                                      int  // percent of authorizations using "code token" / "token"
 	RawStore                                                              int  // percent of histories on the raw MemoryStore (monitors only)
 	JWT                                                                   int  // percent of histories with JWT access tokens (monitors only)
+	ClientLife                                                            int  // percent of clients with a table of lifetime overrides
 	Smuggle                                                               int
 }
 
@@ -37,6 +38,7 @@ type gTok struct {
 	method   string
 	used     bool
 	issuedAt int64
+	exp      int64 // expiry the introspection reported when the token was minted (0 = unknown)
 	scopes   []string // requested scopes of the grant
 	aud      []string
 }
@@ -119,6 +121,9 @@ func newGen(r *RNG, p *Profile) *gen {
 	n := 2 + r.Intn(3)
 	for i := 0; i < n; i++ {
 		cl := HClient{Public: r.Chance(30)}
+		if r.Chance(p.ClientLife) {
+			cl.Life = g.randLife(c)
+		}
 		cl.Grants = []string{"authorization_code", "refresh_token", "password", "client_credentials", "urn:ietf:params:oauth:grant-type:device_code", "implicit"}
 		if r.Chance(20) {
 			cl.Grants = cl.Grants[:5]
@@ -551,8 +556,11 @@ func (g *gen) next() HOp {
 			if len(g.toks) > 0 {
 				t := Pick(r, g.toks)
 				life := map[string]int64{"code": c.LifeCode, "access": c.LifeAT, "refresh": c.LifeRT, "device": c.LifeDev, "user": c.LifeDev, "par": c.ParLife}[t.kind]
-				if life > 0 {
+				if t.exp > 0 || life > 0 {
 					target := t.issuedAt + life + Pick(r, []int64{-1000, -501, -500, -499, -1, 0, 1, 499, 500, 501, 999, 1000, 1001})
+					if t.exp > 0 {
+						target = t.exp + Pick(r, []int64{-1000, -501, -500, -499, -1, 0, 1, 499, 500, 501, 999, 1000, 1001})
+					}
 					if target > g.now {
 						op.Ms = target - g.now
 						break
@@ -570,7 +578,14 @@ func (g *gen) next() HOp {
 		i := r.Intn(len(g.h.Clients))
 		nc := g.orig[i]
 		cur := g.h.Clients[i]
-		switch r.Intn(6) {
+		switch r.Intn(7) {
+		case 6: // change the table of lifetime overrides
+			nc = cur
+			if cur.Life != nil && r.Chance(30) {
+				nc.Life = nil
+			} else {
+				nc.Life = g.randLife(&g.h.Cfg)
+			}
 		case 5: // drop one registered audience
 			if len(cur.Aud) > 0 {
 				k := r.Intn(len(cur.Aud))
@@ -625,6 +640,8 @@ func genHistory(t *testing.T, r *RNG, p *Profile) (*HHistory, []HObs) {
 			g.h.Ops = append(g.h.Ops, op)
 			res = append(res, o)
 			// update the generator's picture
+			defer0 := len(g.toks)
+			_ = defer0
 			switch op.Kind {
 			case "authorize":
 				for _, m := range o.Minted {
@@ -682,6 +699,11 @@ func genHistory(t *testing.T, r *RNG, p *Profile) (*HHistory, []HObs) {
 			case "setclient":
 				g.h.Clients[op.Client] = *op.NewClient
 			}
+			for j := defer0; j < len(g.toks) && j < len(o.Probes); j++ {
+				if o.Probes[j] != nil && o.Probes[j].Exp != nil {
+					g.toks[j].exp = *o.Probes[j].Exp
+				}
+			}
 		}
 	})
 	// HHistory.Clients must be the initial registrations for replay
@@ -699,4 +721,24 @@ func opHistogram(out *Out, h *HHistory, obs []HObs) {
 		}
 	}
 	out.Count(fmt.Sprintf("len:%02d-%02d", len(h.Ops)/10*10, len(h.Ops)/10*10+9))
+}
+
+
+// a table of lifetime overrides: each pair set with probability 45 %, values on the same scale as the server's
+func (g *gen) randLife(c *HConfig) map[string]int64 {
+	m := map[string]int64{}
+	for _, k := range lifeKeys {
+		if !g.r.Chance(45) {
+			continue
+		}
+		if c.LifeAT < 10000 {
+			m[k] = 1500 + int64(g.r.Intn(20))*250
+		} else {
+			m[k] = Pick(g.r, []int64{120000, 1800000, 7200000, 90000})
+		}
+		if strings.HasSuffix(k, "_rt") && g.r.Chance(12) {
+			m[k] = -1
+		}
+	}
+	return m
 }
